@@ -2,6 +2,7 @@ package siml
 
 import (
 	"bytes"
+	"fmt"
 
 	"github.com/nspcc-dev/neo-go/pkg/core/transaction"
 	"github.com/nspcc-dev/neo-go/pkg/crypto/keys"
@@ -38,6 +39,11 @@ func AlphaSignerClass(w *World, class int, stranger *keys.PrivateKey) ([]Signer,
 		return []Signer{w.Alphabet}, ""
 	case 1:
 		if w.Committee.Hash == w.Alphabet.Hash {
+			// n = 1, 2, 4: the two accounts coincide; the neighbouring threshold
+			// (one signature short) is the wrong account there
+			if s, ok := OneShort(w, w.Alphabet); ok {
+				return []Signer{s}, "wit.one_short"
+			}
 			return []Signer{w.Alphabet}, ""
 		}
 		return []Signer{w.Committee}, "wit.swap_threshold"
@@ -78,4 +84,14 @@ func clipStr(s string, n int) string {
 		return s[:n] + "…"
 	}
 	return s
+}
+
+// OneShort returns the multi-signature account of the same keys that needs one
+// signature less than s (false for single keys and 1-of-n accounts).
+func OneShort(w *World, s Signer) (Signer, bool) {
+	m := len(s.Keys)
+	if m < 2 || len(w.Privs) < m {
+		return Signer{}, false
+	}
+	return Multi(fmt.Sprintf("%d-of-%d", m-1, len(w.Privs)), m-1, w.Privs), true
 }
